@@ -88,3 +88,14 @@ add('C09', 'property-based testing against Python integer arithmetic decoded row
     'gadgets on all 2^n rows, incl. unequal widths, b=0, constants that do not fit, add_outputs / result_labels options and '
     'shape-mismatch rejection; output-marking and host-discipline predicates.',
     TRUST)
+
+add('C17', 'finite enumeration of the shipped databases and lookup tables + property-based lookup testing against an own normalisation model',
+    'All stored entries (thorough) / seeded sample (quick) decoded and compared with the table their key spells, basis and '
+    'well-formedness; lookups for all small tables (thorough) and generated tables with equal / complementary outputs and '
+    'unstored shapes against an own normalisation model; don\'t-care lookups against own completion enumeration.',
+    TRUST + ' The list of stored labels is read from the opened database object.')
+add('C06', 'property-based testing: validity predicate on every returned circuit + own brute-force enumeration on every NoSolution verdict',
+    'Generated function models x budgets x bases x constraints: soundness by a validity predicate over the decoded circuit '
+    'and CNF/verdict equisatisfiability; completeness by enumerating the same canonical search space independently.',
+    TRUST + ' The SAT solver is a z3-backed stand-in for pysat (models re-checked, UNSAT cross-checked by the enumeration); '
+    'search spaces above the bound are counted as inconclusive.')
